@@ -9,6 +9,8 @@ import (
 	"fmt"
 	"sort"
 	"strings"
+	"sync"
+	"testing/synctest"
 
 	"verifharness/sched"
 	"verifharness/trace"
@@ -56,6 +58,9 @@ type prScenario struct {
 	Proms   []prProm `json:"proms"`
 	Cur     int      `json:"cur"`
 	Clients [][]prOp `json:"clients"`
+	// mode M2: every client runs its whole program free-running and in parallel (no controller steps);
+	// then, at quiescence, one more Await on the container (a result is then certainly current)
+	Burst bool `json:"burst,omitempty"`
 }
 
 var (
@@ -112,9 +117,38 @@ type prDriver struct {
 	cl     []*prClient
 	nextID int
 	lastQ  string
+	mu     sync.Mutex // burst mode: guards nextID
 }
 
 func init() { Register("promise", func() Driver { return &prDriver{} }) }
+
+// genPromiseBurst: setters that each replace the container's result several times in a row (so the
+// real-time order of one client's calls bounds what may be current afterwards: PromiseP B2), next to
+// awaiters that sample it meanwhile.
+func genPromiseBurst(x *sched.Exec) prScenario {
+	r := x.Rng
+	errs := []string{"nil", "nil", "E", "C"}
+	kinds := []string{"await", "errch", "cancelch"}
+	sc := prScenario{Burst: true}
+	nv := 0
+	for i, n := 0, 3+r.Intn(4); i < n; i++ {
+		var prog []prOp
+		for j, m := 0, 2+r.Intn(3); j < m; j++ {
+			sc.Proms = append(sc.Proms, prProm{})
+			nv++
+			prog = append(prog, prOp{Op: "cset", Q: len(sc.Proms), V: nv, E: errs[r.Intn(len(errs))]})
+		}
+		sc.Clients = append(sc.Clients, prog)
+	}
+	for i, n := 0, 1+r.Intn(2); i < n; i++ {
+		var prog []prOp
+		for j, m := 0, 1+r.Intn(3); j < m; j++ {
+			prog = append(prog, prOp{Op: "await", Kind: kinds[r.Intn(3)]})
+		}
+		sc.Clients = append(sc.Clients, prog)
+	}
+	return sc
+}
 
 func genPromise(x *sched.Exec) prScenario {
 	r := x.Rng
@@ -209,6 +243,8 @@ func genPromise(x *sched.Exec) prScenario {
 }
 
 func (d *prDriver) newID() int {
+	d.mu.Lock()
+	defer d.mu.Unlock()
 	d.nextID++
 	return d.nextID
 }
@@ -400,8 +436,13 @@ func (d *prDriver) Run(x *sched.Exec, raw json.RawMessage) json.RawMessage {
 		if err := json.Unmarshal(raw, &sc); err != nil {
 			panic(err)
 		}
+	} else if strings.Contains(Opt, "burst") {
+		sc = genPromiseBurst(x)
 	} else {
 		sc = genPromise(x)
+	}
+	if sc.Burst {
+		fine = true
 	}
 	out, _ := json.Marshal(sc)
 
@@ -460,7 +501,27 @@ func (d *prDriver) Run(x *sched.Exec, raw json.RawMessage) json.RawMessage {
 		x.Log(trace.E{"ev": "quiet", "blk": blk, "xblk": d.blockedXIDs()})
 		d.lastQ = fmt.Sprint(blk, x.T.Seq())
 	}
-	x.Loop(moves, observe, 90+len(x.Sched))
+	if sc.Burst {
+		x.Policy = func(*sched.Actor, string, string, any) bool { return false }
+		for _, c := range x.Clients {
+			prog := c.Prog
+			c.Prog = nil
+			x.Issue(c, func() {
+				for _, op := range prog {
+					op.Do()
+				}
+			})
+		}
+		x.Labels = append(x.Labels, "burst")
+		synctest.Wait()
+		x.Log(trace.E{"ev": "quiet", "blk": d.blockedIDs()})
+		fc := &prClient{c: x.NewClient("cF"), idx: len(d.cl)}
+		d.cl = append(d.cl, fc)
+		x.Issue(fc.c, d.opFunc(fc, 0, prOp{Op: "await", Kind: "await"}).Do)
+		synctest.Wait()
+	} else {
+		x.Loop(moves, observe, 90+len(x.Sched))
+	}
 
 	// teardown: cancel every await still in flight (a spinning awaiter must see a cancelled
 	// context before the hooks become pass-through, or it would spin for real), then let
